@@ -2,7 +2,7 @@
    ONLY statements. *)
 From PM.theories Require Import Base Expr Struct FrBCode Crc FrBCommon FrRtu FrBin FrSpecB.
 From PM.Generated Require Import GenFramerB.
-From PM.proofs Require Import Crc_proofs Crc_detect_proofs FrB_rtu_proofs.
+From PM.proofs Require Import Crc_proofs Crc_detect_proofs FrB_rtu_proofs FrB_bin_proofs.
 Open Scope list_scope.
 Open Scope N_scope.
 
@@ -98,3 +98,44 @@ Example C07_detection_nonvacuous :
   weight [0; 0; 4; 0; 0; 128; 0; 0] = 2%nat /\ burst_len [0; 0; 128; 255; 1; 0; 0; 0] = 10%nat /\
   crc_ok (xor_bytes frame [0; 0; 4; 0; 0; 128; 0; 0]) = false.
 Proof. cbv zeta. repeat split; vm_compute; reflexivity. Qed.
+
+(* ---- binary framer.  The unrestricted gate is REFUTED (finding F-C07-binary-stale-start): with
+   one noise byte in front and one byte inserted after '{', a message is delivered although the
+   received bytes contain no '{'..'}' frame for it with a matching CRC. *)
+Definition C07_gate_binary_full_statement : Prop :=
+  forall cfg st chunk st' ds x, wfb (b_buf st ++ chunk) = true ->
+    bin_recv cfg st chunk = (st', ds, x) ->
+    forall pdu uid, In (pdu, uid) ds -> justified_binary (b_buf st ++ chunk) pdu uid = true.
+
+Theorem C07_gate_binary_refuted :
+  let cfg := {| cf_dec := fun _ => DMsg; cf_rules := server_decoder; cf_units := [17%Z]; cf_single := false |} in
+  let rx := [0; 123; 17; 3; 43; 14; 1; 0; 9; 183; 125] in
+  snd (fst (bin_recv cfg bin_init rx)) = [([3; 43; 14; 1; 0], 17%Z)] /\
+  justified_binary rx [3; 43; 14; 1; 0] 17 = false /\
+  is_infix ([123] ++ with_crc [17; 3; 43; 14; 1; 0] ++ [125]) rx = false /\
+  spec_rx_binary [123; 3; 43; 14; 1; 0; 9; 183; 125] = Some ([43; 14; 1; 0], 3).
+Proof. exact bin_gate_refuted_witness. Qed.
+Print Assumptions C07_gate_binary_refuted.
+
+(* GATE, binary, strongest true statement: when the bytes examined start with '{' (the local
+   `start` of checkFrame is then not stale), for every header content, chunk and decoder: the
+   first message delivered by the call is exactly the unit and PDU between the braces, the two
+   bytes before '}' are their bitwise CRC-16 (low byte first), and no '}' lies inside.
+   ([cf_dec cfg [] <> DMsg]: both real decoders reject the empty PDU.) *)
+Theorem C07_gate_binary : forall cfg st chunk st' d ds x,
+  wfb (b_buf st ++ chunk) = true -> find_byte 123 (b_buf st ++ chunk) = 0%Z ->
+  cf_dec cfg [] <> DMsg ->
+  bin_recv cfg st chunk = (st', d :: ds, x) ->
+  exists u pdu c0 c1 rest,
+    b_buf st ++ chunk = [123] ++ (u :: pdu) ++ [c0; c1] ++ [125] ++ rest /\
+    d = (pdu, Z.of_N u) /\ pdu <> [] /\
+    crc16_bitwise (u :: pdu) = c0 + 256 * c1 /\ ~ In 125 ((u :: pdu) ++ [c0; c1]).
+Proof. exact bin_gate_first. Qed.
+Print Assumptions C07_gate_binary.
+
+(* ... and that span is the specified frame when it contains no '{' either *)
+Theorem C07_gate_binary_span_is_spec : forall u pdu c0 c1, c0 < 256 -> c1 < 256 ->
+  crc16_bitwise (u :: pdu) = c0 + 256 * c1 -> no_delim ((u :: pdu) ++ [c0; c1]) = true ->
+  [123] ++ (u :: pdu) ++ [c0; c1] ++ [125] = spec_adu_binary u pdu.
+Proof. exact bin_gate_first_spec. Qed.
+Print Assumptions C07_gate_binary_span_is_spec.
